@@ -11,7 +11,7 @@ LEVEL = "model_checking"
 ASSUMPTIONS = [
     "relational oracle: ground truth = get_page_links + retrieve_webentity of the same state; 'source page belongs to W' is read through get_webentity_pages (C05 ties it to resolution)",
     "link ends that resolve to no webentity show up as None in the cited/citing sets; None is discarded on both sides",
-    "bounds: histories up to the depth reported per space; all 7 non-empty switch settings; up to 6 orders of each prefix list",
+    "bounds: histories up to the depth reported per space; all 7 non-empty switch settings; three orders of each prefix list (sorted with all 7 switch settings; reversed and rotated with all switches on)",
 ]
 SWITCHES = [s for s in itertools.product((False, True), repeat=3) if any(s)]  # inbound, internal, outbound
 
@@ -30,8 +30,13 @@ class Check(HCheck):
         obs = []
         for wid in g.weids():
             pl = g.prefixes[wid]
-            orders = list(itertools.permutations(pl))[:6]
-            for order in orders:
+            # every switch setting on the sorted order; the other orders (a rotation and the
+            # reverse are enough to move every prefix to the first and last place) with all
+            # switches on
+            orders = [tuple(pl)]
+            if len(pl) > 1:
+                orders += [tuple(reversed(pl)), tuple(pl[1:] + pl[:1])]
+            for oi, order in enumerate(orders):
                 order = list(order)
                 try:
                     mine = set(d["lru"] for d in t.get_webentity_pages(wid, order))
@@ -39,7 +44,7 @@ class Check(HCheck):
                     ctx.count("membership_query_failed")
                     return
                 inW = lambda p: g.res.get(p) == wid  # noqa: E731
-                for inb, inte, outb in SWITCHES:
+                for inb, inte, outb in (SWITCHES if oi == 0 else [(True, True, True)]):
                     exp = []
                     for (s, tg), wt in g.edges.items():
                         if s in mine:
